@@ -1856,6 +1856,15 @@ def oracle_dense(c, out):
         for y in range(m["cols"]):
             if asg[addr[q]] != float(1000 * (x + 1) + y): return f"row assignment wrote element ({x},{y}) to the wrong slot"
             q += 1
+    asgx = [unhex(x) for x in d.get("asgx", [])]
+    if asgx:
+        q = 0
+        for x in range(m["rows"]):
+            for y in range(m["cols"]):
+                if asgx[addr[q]] != float(1000 * (x + 1) + y):
+                    return (f"row assignment from a longer vector (last row first): element ({x},{y}) holds {asgx[addr[q]]!r} instead of {float(1000 * (x + 1) + y)!r} "
+                            f"(rows={m['rows']}, cols={m['cols']}): the surplus of another row's vector was written into it")
+                q += 1
     thr = size // 2 + 0.5
     mx = set(int(x) for x in d.get("max", [])); mn = set(int(x) for x in d.get("min", []))
     val = lambda i: (i * 7919) % (size + 1) + 1
@@ -2376,6 +2385,9 @@ def special_c18(tier, seed):
             fails.append((f"JIT solver result differs from the CPU solver: {l[:200]}", {"cmd": f"{exe} {seed} {n}", "line": l}, True))
         if "guard=err MICM_JIT 1" not in l:
             fails.append((f"a JIT solver for a cell count different from L was not rejected with the JIT error: {l[-60:]}", {"cmd": f"{exe} {seed} {n}", "line": l}, True))
+        if kv.get("guard_rt") != "ok":
+            fails.append((f"run-time cell-count guard of the JIT solver (diagonal-shift entry point, blocks = L-1, L, L+1, 2L, 3L): wrong decision for {kv.get('guard_rt')} "
+                          f"(L={kv.get('L')}): a request for a block count other than L must be rejected, L itself accepted", {"cmd": f"{exe} {seed} {n}", "line": l}, True))
     if r.returncode != 0:
         fails.append((f"JIT driver exited with {r.returncode}", {"stderr": r.stderr[-1500:]}, True))
     if len(lines) < 8 * n and r.returncode == 0:
